@@ -723,8 +723,8 @@ fn handle_backend_messages<R: TransportReceiverT>(
 						max_buffer_capacity_per_subscription,
 					)?;
 
-					if let Some(unsub) = maybe_unsub {
-						return Ok(vec![FrontToBack::Request(unsub)]);
+					if let Some(sub_id) = maybe_unsub {
+						return Ok(vec![FrontToBack::SubscriptionClosed(sub_id)]);
 					}
 				}
 				// Subscription response.
